@@ -201,9 +201,11 @@ class Ctx:
         n = len(self.obligations)
         nd = len([o for o in self.obligations if o.status == "discharged"])
         nb = len([o for o in self.obligations if o.bounded])
-        print("%s: %d obligations, %d discharged (%d of them bounded stand-ins), %d failed, %d undecided, %d functions under contract, %.1fs"
-              % (self.pid, n, nd, len([o for o in self.obligations if o.bounded and o.status == 'discharged']),
-                 len(failed), len(und) + len(self.undecided), len(self.functions), time.time() - self.t0))
+        nk = len([o for o in self.obligations if o.status == "known-finding"])
+        print("%s: %d obligations, %d discharged (%d of them bounded stand-ins), %d failed, %d undecided%s, %d functions under contract, %.1fs"
+              % (self.pid, n - nk, nd, len([o for o in self.obligations if o.bounded and o.status == 'discharged']),
+                 nviol, len(und) + len(self.undecided), (" (+%d obligations of listed known findings, reported above)" % nk) if nk else "",
+                 len(self.functions), time.time() - self.t0))
         return rc
 
     def write_evidence(self, rc, seen_known):
